@@ -149,14 +149,15 @@ RandG(i) == LET n == Pick(<<1, 1, 2>>, i, 1)
 RandN(i) == LET n == 2
                 m == Pick(<<1, 2, 2>>, i, 1)
                 R7 == <<-7, -5, -4, -3, -2, -1, 0, 1, 2, 3, 4, 5, 7>>
-            IN InstN(n, [j \in 1..n |-> Pick(<<"inf", "inf", "wide">>, i, 10 + j)], Pick(<<4, 8, 16, 64>>, i, 2), 0,
+            IN InstN(n, [j \in 1..n |-> Pick(<<"inf", "inf", "wide", "up0", "lo0", "box1", "up02", "lonear">>, i, 10 + j)],
+                     Pick(<<4, 8, 16, 64>>, i, 2), 0,
                      Pick(<<TRUE, FALSE>>, i, 3),
                      [r \in 1..m |-> [j \in 1..n |-> Pick(R7, i, 40 + 10 * r + j)]],
                      [r \in 1..m |-> Pick(<<-9, -5, -3, -1, 1, 4>>, i, 70 + r)],
                      << [j \in 1..n |-> Pick(R7, i, 80 + j)] >>, << Pick(<<-5, -2, 1, 3>>, i, 90) >>)
 
 Vecs(n, S) == [1..n -> S]
-RowKinds == {"none", "inactive", "active", "dup", "parallel", "rankdef", "violated", "poly", "wedge"}
+RowKinds == {"none", "inactive", "active", "dup", "parallel", "rankdef", "violated", "poly", "wedge", "tie"}
 EqKinds  == {"none", "one", "dup"}
 
 Universe(id) ==
@@ -186,6 +187,9 @@ UniverseP(id) ==
   CASE id = "lin3p" -> {Inst(3, g, bp, hk, d, 0, TRUE, rows, "none") :
                         g \in Vecs(3, {-2, -1, 1}), bp \in Vecs(3, {"box1", "half", "wide", "inf"}),
                         hk \in {"indef", "dind", "pd", "sing"}, d \in {8, 16}, rows \in {"poly", "wedge"}}
+    [] id = "lin2t" -> {Inst(2, g, bp, hk, d, sc, TRUE, "tie", "none") :
+                        g \in {<<-1, 0>>, <<-2, 0>>, <<0, -1>>, <<-1, -1>>, <<1, -2>>}, bp \in Vecs(2, {"inf", "wide"}),
+                        hk \in HKinds, d \in {8, 16, 1024}, sc \in {0, 20}}
     [] id = "lin2p" -> {Inst(2, g, bp, hk, d, sc, TRUE, rows, "none") :
                         g \in Vecs(2, {-2, -1, 1}), bp \in Vecs(2, {"box1", "half", "wide", "inf", "lonear"}),
                         hk \in HKinds, d \in {8, 16}, sc \in {0, 20}, rows \in {"poly", "wedge"}}
